@@ -161,6 +161,12 @@ CreateIndex ==
     /\ stmts' = stmts + 1
     /\ UNCHANGED <<dvars, up, cat, live, ldv, nextRs, nextDv, pc, cur, avars, nrow, boots, dead, err, bad, kf>>
 
+\* CREATE FUNCTION: a catalog entry of its own kind; takes no id, occupies no table name, is not logged.
+CreateFunction ==
+    /\ AllowViews /\ Idle /\ stmts < MaxStmts
+    /\ stmts' = stmts + 1
+    /\ UNCHANGED <<dvars, up, cat, nextTid, live, ldv, nextRs, nextDv, pc, cur, avars, nrow, boots, dead, err, bad, kf>>
+
 \* DROP TABLE of a table that a view selects from is refused: nothing changes.
 DropRefused(n) ==
     /\ Idle /\ stmts < MaxStmts /\ cat[n].k = "table" /\ HasView(n)
@@ -433,6 +439,7 @@ DelSets == {1..c : c \in 1..MaxRows} \cup {{c} : c \in 1..MaxRows}
 Stmt ==
     \/ \E n \in Names : CreateTable(n) \/ DropTable(n) \/ DropRefused(n) \/ Compact(n)
     \/ \E n, m \in Names : CreateView(n, m)
+    \/ CreateFunction
     \/ CreateIndex
     \/ \E n \in Names, c \in 1..2 : Insert(n, c)
     \/ \E n \in Names, S \in DelSets : Delete(n, S)
